@@ -254,4 +254,72 @@ Definition nucSites (ps : list sphase) (M : matrixSites) (p : sphase) : t :=
 
 End Phases.
 
+(* ====================================================================================== *)
+(* Part D - diffusion profiles and per-phase inputs of the growth law                      *)
+
+(* CompositionProfile.buildProfile (kawin/diffusion/DiffusionParameters.py): the steps registered per element
+   are kept in a dictionary (insertion order = registration order); the profile array x (one row per element
+   of the MODEL's element list) is filled row by row *)
+Section Profile.
+Context {K Step Row : Type}.
+Variable keq : K -> K -> bool.
+Variable apply : Step -> Row -> Row.          (* one build step (linear, step, single, bounded, function, data) on a row *)
+
+Fixpoint lookup (e : K) (d : list (K * list Step)) : option (list Step) :=
+  match d with [] => None | (k, v) :: r => if keq e k then Some v else lookup e r end.
+(* addCompositionBuildStep / clearCompositionBuildSteps *)
+Fixpoint add_step (e : K) (s : Step) (d : list (K * list Step)) : list (K * list Step) :=
+  match d with
+  | [] => [(e, [s])]
+  | (k, v) :: r => if keq e k then (k, v ++ [s]) :: r else (k, v) :: add_step e s r
+  end.
+Fixpoint clear_steps (e : K) (d : list (K * list Step)) : list (K * list Step) :=
+  match d with [] => [] | (k, v) :: r => if keq e k then r else (k, v) :: clear_steps e r end.
+
+Fixpoint upd_row (i : nat) (f : Row -> Row) (x : list Row) : list Row :=
+  match x, i with
+  | [], _ => []
+  | r :: x', 0 => f r :: x'
+  | r :: x', S i' => r :: upd_row i' f x'
+  end.
+
+(* for i in range(len(elements)): if elements[i] in steps: for step in steps[elements[i]]: build(i, x, ...) *)
+Definition build_at (els : list K) (d : list (K * list Step)) (x : list Row) (i : nat) : list Row :=
+  match nth_error els i with
+  | Some e => match lookup e d with
+              | Some steps => fold_left (fun x s => upd_row i (apply s) x) steps x
+              | None => x end
+  | None => x
+  end.
+Definition buildProfile (els : list K) (d : list (K * list Step)) (x : list Row) : list Row :=
+  fold_left (build_at els d) (seq 0 (length els)) x.
+
+(* what the row of element e should be: its own steps, in registration order *)
+Definition row_of (d : list (K * list Step)) (e : K) (r : Row) : Row :=
+  match lookup e d with Some steps => fold_left (fun r s => apply s r) steps r | None => r end.
+
+(* the loop "for i, (element, steps) in enumerate(dict.items())": the row index is the position of the element in
+   the dictionary - not the code's loop; kept for the refutation witness in Examples.v *)
+Definition buildProfile_dictorder (els : list K) (d : list (K * list Step)) (x : list Row) : list Row :=
+  fold_left (fun x ie => let '(i, (e, steps)) := ie in
+                         if existsb (keq e) els then fold_left (fun x s => upd_row i (apply s) x) steps x else x)
+            (combine (seq 0 (length d)) d) x.
+End Profile.
+
+(* what PrecipitateModel._singleGrowthMulti hands to the backend for the phase at position p *)
+Section GrowthInputs.
+Context {P A B C : Type}.
+Variables (gname : P -> nat) (gbounds : P -> A) (gibbs : P -> A -> B) (gbeta : P -> C).
+(* phaseIndex(phase): None means the first phase *)
+Definition phaseIdx (ps : list P) (ph : option nat) : nat :=
+  match ph with None => 0 | Some n => phaseIndex (map gname ps) n end.
+(* particleGibbs(radius=None, phase=None): radius None means the size-class bounds of that phase *)
+Definition particleGibbs (ps : list P) (d : P) (radius : option A) (ph : option nat) : B :=
+  let q := nth (phaseIdx ps ph) ps d in
+  gibbs q (match radius with Some r => r | None => gbounds q end).
+(* (radii, Gibbs-Thomson energies, phase name, search direction) as they should be: all of phase p *)
+Definition growth_inputs (ps : list P) (d : P) (p : nat) : A * B * nat * C :=
+  let q := nth p ps d in (gbounds q, gibbs q (gbounds q), gname q, gbeta q).
+End GrowthInputs.
+
 Arguments delete_at {A} k l.
